@@ -90,7 +90,8 @@ def prepare(case, fault=None, record_sites=True, keep_args=True, policy="fresh")
         spec.x0 = x0
     weights = None
     if cfgd.get("scaling") == "custom":
-        weights = cfgd.get("weights") or C.scaling_weights(rng, spec.n, spec.m, span=int(case.get("wspan", 6)))
+        weights = cfgd.get("weights") or C.scaling_weights(rng, spec.n, spec.m, span=int(case.get("wspan", 6)),
+                                                           degenerate=bool(case.get("wdegen")))
     p.spec = spec
     p.weights = weights
     p.inner = SpecProblem(spec, fmt=p.fmt, dup=p.dup, policy=case.get("policy", policy))
